@@ -6,7 +6,7 @@ import time
 import z3
 
 from vlib import env
-from vlib.zrun import explore_and_prove, all_eq, concretize, pyrepr, eq_term
+from vlib.zrun import twin_verdict, explore_and_prove, all_eq, concretize, pyrepr, eq_term
 from vlib.zsym import Real, Int, SymNum, lift, model_value, _q
 
 META = {
@@ -97,7 +97,7 @@ def task_table():
     o = explore_and_prove(run, assum, goal)
     ot = explore_and_prove(run, assum, lambda p: goal(p, True), max_fail=1)
     res.update(obligations=o.obligations + 1, discharged=o.discharged, queries=o.queries, paths=o.paths, solver_s=o.solver_s,
-               inconclusive=o.inconclusive, twin="violated" if ot.failed else "passed")
+               inconclusive=o.inconclusive, twin=twin_verdict(ot))
     for p, m, g in o.failed[:1]:
         if p.kind == "exc":
             cc = {0: 1, 1: 2, 8: 1}
@@ -179,7 +179,7 @@ def task_fractions(nsub):
     o = explore_and_prove(run, assum, goal)
     ot = explore_and_prove(run, assum, lambda p: goal(p, True), max_fail=1)
     res = dict(engine="Z", functions=[env.describe(mass_fractions)], obligations=o.obligations, discharged=o.discharged, violations=[],
-               inconclusive=o.inconclusive, queries=o.queries, paths=o.paths, solver_s=o.solver_s, twin="violated" if ot.failed else "passed",
+               inconclusive=o.inconclusive, queries=o.queries, paths=o.paths, solver_s=o.solver_s, twin=twin_verdict(ot),
                bounds="%d substances, coefficients and masses any positive reals" % nsub,
                sample={"mixture": keys, "coefficients": "symbolic > 0", "masses": "symbolic > 0"})
     for p, m, g in o.failed[:1]:
